@@ -26,10 +26,13 @@ theorem C13_compact_valid (op : List (Nat × Nat)) (P0 S0 : List Row) (c : Compa
   simp only [compactify] at h
   split at h
   · simp at h
-  · split at h
-    · rename_i P S hP hS
+  · rw [newPairs_eq _ _ (nodup_uniq _) (nodup_uniq _) op (fun q hq =>
+      ⟨mem_uniq.mpr (List.mem_map.mpr ⟨q, hq, rfl⟩), mem_uniq.mpr (List.mem_map.mpr ⟨q, hq, rfl⟩)⟩)] at h
+    split at h
+    · rename_i P S prs hP hS hprs
+      simp only [Option.some.injEq] at hprs
       simp only [Except.ok.injEq, Option.some.injEq] at h
-      subst h
+      subst h hprs
       have lP := gather_length hP
       have lS := gather_length hS
       refine ⟨⟨?_, ?_, ?_⟩, by simp, lP, lS⟩
@@ -69,7 +72,9 @@ theorem C13_compact_total (op : List (Nat × Nat)) (P0 S0 : List Row) (hne : op 
     obtain ⟨q, hq, e⟩ := List.mem_map.mp (mem_uniq.mp hi)
     exact e ▸ (h q hq).2)
   have : op.isEmpty = false := by cases op <;> simp_all
-  exact ⟨_, by simp only [compactify, this, hP, hS]; rfl⟩
+  have hn := newPairs_eq _ _ (nodup_uniq (op.map Prod.fst)) (nodup_uniq (op.map Prod.snd)) op (fun q hq =>
+    ⟨mem_uniq.mpr (List.mem_map.mpr ⟨q, hq, rfl⟩), mem_uniq.mpr (List.mem_map.mpr ⟨q, hq, rfl⟩)⟩)
+  exact ⟨_, by simp only [compactify, this, hP, hS, hn]; rfl⟩
 
 /-- **C13_compact_expand** — compaction loses nothing: expanding the compact result gives,
 pair by pair, the values of the original points of that pair. -/
@@ -79,10 +84,13 @@ theorem C13_compact_expand (op : List (Nat × Nat)) (P0 S0 : List Row) (c : Comp
   simp only [compactify] at h
   split at h
   · simp at h
-  · split at h
-    · rename_i P S hP hS
+  · rw [newPairs_eq _ _ (nodup_uniq _) (nodup_uniq _) op (fun q hq =>
+      ⟨mem_uniq.mpr (List.mem_map.mpr ⟨q, hq, rfl⟩), mem_uniq.mpr (List.mem_map.mpr ⟨q, hq, rfl⟩)⟩)] at h
+    split at h
+    · rename_i P S prs hP hS hprs
+      simp only [Option.some.injEq] at hprs
       simp only [Except.ok.injEq, Option.some.injEq] at h
-      subst h
+      subst h hprs
       rw [expand_eq_gp]
       simp only
       -- only the membership of the original indices in `op` matters
@@ -133,6 +141,35 @@ theorem C13_rows_injective (c : Compact.Compact) (hv : Valid c) :
   · intro k l hk hl' he hx
     rw [hs k hk, hs l hl'] at he
     exact count_take_injective _ k l hk hl' hx (Option.some.inj he)
+
+/-- **C13_matrix_spec** — for a valid dataset the NaN-padded bin matrix is exactly the partial
+map `(r, j) ↦` the `r`-th partner point of reference point `j` (in pair order): no slot is
+overwritten, no value is lost, the matrix has a column per stored reference point and at
+least as many rows as any reference point has partners. -/
+theorem C13_matrix_spec (c : Compact.Compact) (hv : Valid c) :
+    ∃ m nrows, binMatrix c = some (m, nrows, c.P.length) ∧
+      (∀ r j, matGet m r j = (partners c j)[r]?) ∧
+      (∀ j, (partners c j).length ≤ nrows) := by
+  obtain ⟨rs, hrs, -, -, -⟩ := C13_rows_injective c hv
+  obtain ⟨vals, hvals⟩ := gather_isSome (data := c.S) (idx := secs c) (by
+    intro i hi
+    obtain ⟨p, hp, e⟩ := List.mem_map.mp hi
+    exact e ▸ (hv.1 p hp).2)
+  have hlen : vals.length = (refs c).length := by
+    rw [gather_length hvals]; simp [refs, secs]
+  have hpart : ∀ j, (((refs c).zip vals).filter (fun e => e.1 == j)).map Prod.snd = partners c j :=
+    fun j => partners_eq c.pairs c.S vals j hvals
+  refine ⟨(rs.zip (refs c)).zip vals, rs.foldl max 0 + 1,
+    by simp only [binMatrix, hrs, hvals, valid_uniq_refs hv], ?_, ?_⟩
+  · intro r j
+    rw [matGet_spec (refs c) rs vals r j hrs hlen, hpart]
+  · intro j
+    have h1 := colEntries_length_le (refs c) rs vals j hrs hlen
+    have h2 := (colEntries_rowsGo (refs c) _ rs vals j hrs hlen).2
+    have := congrArg List.length h2
+    rw [hpart] at this
+    simp only [List.length_map] at this
+    omega
 
 /-! ## collapse -/
 
@@ -296,6 +333,6 @@ example : (concatAliased [exA] [0, 0]).pairs = shift 2 3 exA.pairs ++ shift 2 3 
 example : (stat [some 1, none, some 3]).mean = some 2 ∧ (stat [some 1, none, some 3]).var = some 1 := by
   constructor <;> simp [stat, Stat.mean, Stat.var] <;> norm_num
 
-assert_axioms C13_compact_valid C13_compact_total C13_compact_expand C13_rows_injective
+assert_axioms C13_compact_valid C13_compact_total C13_compact_expand C13_rows_injective C13_matrix_spec
   C13_collapse_spec C13_collapse_spec_second_reference C13_partners_swap C13_mean_var
   C13_expand_spec C13_expand_error C13_concat_expand C13_concat_valid
